@@ -36,6 +36,7 @@ struct wsh {
 	int		wd;
 	int		registered;	/* shadow: in the instance's set */
 	int		oneshot;
+	int		kernel_oneshot;	/* a refused registration with a one-shot mask replaced the kernel's mask of this watch */
 	int		is_dir;
 	long		deliveries;
 };
@@ -63,7 +64,7 @@ enum { ACT_NONE, ACT_UNREG_SELF, ACT_UNREG_OTHER, ACT_UNREG_INSTANCE, ACT_UNREG_
 
 static struct {
 	uint64_t cases, reads, events_parsed, deliveries_checked, multi_event_reads, named_events, unreg_self, unreg_other, unreg_instance,
-		 oneshot_drops, ignored_drops, suppressed, never_read_instances, max_events_in_read;
+		 oneshot_drops, ignored_drops, suppressed, never_read_instances, max_events_in_read, kernel_set_checks, refused_registrations;
 } S;
 
 void hk_inotify_init(int fd) { inot_fd = fd; }
@@ -340,6 +341,15 @@ static void add_watch(const char *path, uint32_t mask, int is_dir)
 	s->oneshot = !!(mask & IN_ONESHOT);
 	s->is_dir = is_dir;
 	if (iv_inotify_watch_register(s->w) != 0) {
+		/* refused: the path names an inode that is watched already.  inotify_add_watch() has then replaced the mask of that
+		 * kernel watch (documented kernel behaviour): if the new mask is one-shot, the kernel will drop the older watch after
+		 * its next event */
+		struct stat a, b;
+		int k;
+		if (stat(path, &a) == 0)
+			for (k = 0; k < nws; k++)
+				if (ws[k].registered && stat(ws[k].path, &b) == 0 && a.st_ino == b.st_ino && a.st_dev == b.st_dev && (mask & IN_ONESHOT))
+					ws[k].kernel_oneshot = 1;
 		free(s->w);
 		free(s->path);
 		s->w = NULL;
@@ -348,6 +358,53 @@ static void add_watch(const char *path, uint32_t mask, int is_dir)
 	s->wd = s->w->wd;
 	s->registered = 1;
 	nws++;
+}
+
+/* the watch descriptors the kernel holds for the instance, from /proc/self/fdinfo */
+static int kernel_wds(int *wds, int max)
+{
+	char path[64], buf[8192], *q;
+	int fd, n, cnt = 0;
+
+	if (inot_fd < 0)
+		return -1;
+	snprintf(path, sizeof(path), "/proc/self/fdinfo/%d", inot_fd);
+	fd = open(path, O_RDONLY);
+	if (fd < 0)
+		return -1;
+	n = (int)__real_read(fd, buf, sizeof(buf) - 1);
+	__real_close(fd);
+	if (n <= 0)
+		return -1;
+	buf[n] = 0;
+	for (q = buf; (q = strstr(q, "inotify wd:")) != NULL; q += 11)
+		if (cnt < max)
+			wds[cnt++] = (int)strtol(q + 11, NULL, 16);
+	return cnt;
+}
+
+/*
+ * A registration that is refused (the path names an inode that this instance already watches: same path, a hard link, "dir/.")
+ * leaves the instance as it was: in particular the kernel still holds the watch of the registration that succeeded earlier.
+ * Checked before any file system activity of the case, when nothing but an unregistration could have removed a (non one-shot) watch.
+ */
+static void check_kernel_watches(const char *when)
+{
+	int wds[64], n = kernel_wds(wds, 64), i, k;
+
+	if (n < 0)
+		return;
+	S.kernel_set_checks++;
+	for (i = 0; i < nws; i++) {
+		if (!ws[i].registered || ws[i].oneshot || ws[i].kernel_oneshot)
+			continue;
+		for (k = 0; k < n; k++)
+			if (wds[k] == ws[i].wd)
+				break;
+		if (k == n)
+			mon_viol("C20", "kernel-watch-gone", g_method, "%s: watch slot %d (%s, wd %d) is registered and nothing was unregistered, but the kernel no longer holds its watch descriptor",
+				 when, i, ws[i].path, ws[i].wd);
+	}
 }
 
 static void run_case(long id, uint64_t seed)
@@ -413,6 +470,31 @@ static void run_case(long id, uint64_t seed)
 			touch(p);
 			add_watch(p, rng_pct(&R, 25) ? (IN_ALL_EVENTS | IN_ONESHOT) : IN_ALL_EVENTS, 0);
 		}
+		/* refused registrations: another name of an inode that is already watched, with the same mask */
+		if (rng_pct(&R, 50)) {
+			int tries, before = nws;
+			for (tries = 0; tries < 3; tries++) {
+				int v = nws ? (int)rng_n(&R, nws) : -1;
+				if (v < 0 || !ws[v].registered || ws[v].oneshot || ws[v].kernel_oneshot)
+					continue;
+				if (ws[v].is_dir) {
+					snprintf(p, sizeof(p), "%s/.", ws[v].path);
+				} else if (rng_pct(&R, 50)) {
+					snprintf(p, sizeof(p), "%s", ws[v].path);
+				} else {
+					snprintf(p, sizeof(p), "%s/lnk%d", base, tries);
+					if (link(ws[v].path, p) < 0)
+						continue;
+				}
+				add_watch(p, ws[v].w->mask, ws[v].is_dir);
+				S.refused_registrations++;
+				if (nws != before) {
+					mon_viol("C20", "duplicate-accepted", g_method, "a second watch for an inode that the instance already watches (%s) was accepted", p);
+					break;
+				}
+			}
+		}
+		check_kernel_watches("after set-up");
 		/* plan: at which delivery the handler unregisters what */
 		memset(actions_plan, 0, sizeof(actions_plan));
 		{
@@ -476,11 +558,11 @@ int main(int argc, char **argv)
 		run_case(i, seed);
 	mon_printf("STAT method=%s cases=%llu reads=%llu events_parsed=%llu deliveries_checked=%llu multi_event_reads=%llu named_events=%llu "
 		   "unregister_self=%llu unregister_other=%llu unregister_instance=%llu oneshot_drops=%llu ignored_drops=%llu suppressed_events=%llu "
-		   "never_read_instances=%llu violations=%d\n", g_method, (unsigned long long)S.cases, (unsigned long long)S.reads,
+		   "never_read_instances=%llu refused_registrations=%llu kernel_watch_set_checks=%llu violations=%d\n", g_method, (unsigned long long)S.cases, (unsigned long long)S.reads,
 		   (unsigned long long)S.events_parsed, (unsigned long long)S.deliveries_checked, (unsigned long long)S.multi_event_reads,
 		   (unsigned long long)S.named_events, (unsigned long long)S.unreg_self, (unsigned long long)S.unreg_other,
 		   (unsigned long long)S.unreg_instance, (unsigned long long)S.oneshot_drops, (unsigned long long)S.ignored_drops,
-		   (unsigned long long)S.suppressed, (unsigned long long)S.never_read_instances, mon_viol_total);
+		   (unsigned long long)S.suppressed, (unsigned long long)S.never_read_instances, (unsigned long long)S.refused_registrations, (unsigned long long)S.kernel_set_checks, mon_viol_total);
 	mon_printf("DONE\n");
 	return 0;
 }
